@@ -85,44 +85,39 @@ func magicHistories(c *core.Ctx) {
 		}},
 	}
 	n := c.N(300, 3000)
-	for k := 0; k < len(corpus)+n; k++ {
-		var h *history
-		if k < len(corpus) {
-			h = corpus[k]
-		} else {
-			h = genHistory(c, "magic", 4+c.Rng.Intn(30), 600, 300, 35)
-			for i := range h.Ops {
-				if h.Ops[i].Kind == "bad" && c.Rng.Intn(2) == 0 {
-					h.Ops[i].Bad = corruptSpec{Mode: "badend", Len: c.Rng.Intn(40), Seed: int64(c.Rng.Intn(1000))}
-				}
-				// alias capacities are not predictable for the model: keep them out of the compared histories
-				if h.Ops[i].EncDst.Mode == "alias" {
-					h.Ops[i].EncDst = dstSpec{Mode: "nil"}
-				}
-				if h.Ops[i].DecDst.Mode == "alias" {
-					h.Ops[i].DecDst = dstSpec{Mode: "small", Cap: 1 + c.Rng.Intn(9)}
-				}
+	hs := append([]*history(nil), corpus...)
+	for k := 0; k < n; k++ {
+		h := genHistory(c, "magic", 4+c.Rng.Intn(30), 600, 300, 35)
+		for i := range h.Ops {
+			if h.Ops[i].Kind == "bad" && c.Rng.Intn(2) == 0 {
+				h.Ops[i].Bad = corruptSpec{Mode: "badend", Len: c.Rng.Intn(40), Seed: int64(c.Rng.Intn(1000))}
+			}
+			// alias capacities are not predictable for the model: keep them out of the compared histories
+			if h.Ops[i].EncDst.Mode == "alias" {
+				h.Ops[i].EncDst = dstSpec{Mode: "nil"}
+			}
+			if h.Ops[i].DecDst.Mode == "alias" {
+				h.Ops[i].DecDst = dstSpec{Mode: "small", Cap: 1 + c.Rng.Intn(9)}
 			}
 		}
-		fs, res := outcomeOf(h)
-		record(c, h, res)
-		if len(fs) > 0 {
-			report(c, h, fs)
-		} else {
-			magicCompare(c, h, res)
-		}
-		if k == 0 {
-			c.Sample(h)
-		}
+		hs = append(hs, h)
 	}
 	// concurrent use of the wrappers
 	for k := 0; k < c.N(10, 60); k++ {
 		h := genHistory(c, "magic", 10+c.Rng.Intn(20), 2000, 300, 35)
 		h.Goroutines = 8 + c.Rng.Intn(24)
-		fs, res := outcomeOf(h)
-		record(c, h, res)
-		if len(fs) > 0 {
-			report(c, h, fs)
+		hs = append(hs, h)
+	}
+	results := runAll(hs)
+	for k, h := range hs {
+		record(c, h, results[k].res)
+		if len(results[k].fs) > 0 {
+			report(c, h, results[k].fs)
+		} else if results[k].res != nil {
+			magicCompare(c, h, results[k].res)
+		}
+		if k == 0 {
+			c.Sample(h)
 		}
 	}
 }
